@@ -15,7 +15,8 @@ import traceback
 from . import core
 
 SHARED = {"files": {}}      # set in the parent *before* the pool is created; inherited by fork
-WALL_S = 20.0
+WALL_S = 10.0
+WALL_CAP = 60.0
 
 
 class HarnessError(Exception):
@@ -65,6 +66,7 @@ def run_in_child(scenario, wall_s=None):
     """Fork, execute, return the result dict. Never raises for anything the code under
     test does; a child that had to be killed yields {"killed": True}."""
     wall_s = wall_s or WALL_S
+    wall_cap = WALL_CAP
     r, w = os.pipe()
     sys.stdout.flush()
     sys.stderr.flush()
@@ -75,7 +77,7 @@ def run_in_child(scenario, wall_s=None):
             os.close(r)
             try:
                 sc = resolve_files(scenario)
-                res = ("ok", core.execute(sc, wall_s=wall_s))
+                res = ("ok", core.execute(sc, wall_s=wall_s, wall_cap=wall_cap))
             except BaseException:  # noqa
                 res = ("harness", traceback.format_exc())
             data = pickle.dumps(res, protocol=pickle.HIGHEST_PROTOCOL)
@@ -87,7 +89,7 @@ def run_in_child(scenario, wall_s=None):
             os._exit(code)
     os.close(w)
     chunks = []
-    deadline = time.monotonic() + wall_s + 15.0
+    deadline = time.monotonic() + max(wall_cap, wall_s) * 1.5 + 30.0
     killed = False
     while True:
         left = deadline - time.monotonic()
